@@ -28,6 +28,7 @@ const (
 	OSetX     = "SetXattrs"
 	OSubDoc   = "WriteSubDoc"
 	OTouch    = "Touch"
+	OUpdDel   = "Update(delete)"
 )
 
 // In is the input of one client call.
@@ -269,6 +270,19 @@ func step(st St, in In, out Out) (bool, St) {
 		}
 		st.P, st.L, st.B, st.C = true, true, appendTok(out.Saw, !out.SawNil, in.Token), out.Cas
 		return true, st
+	case OUpdDel:
+		if out.Err != "" {
+			return !st.L && isRefusal(out.Err), st // deleting what has no body may be refused (§3.16)
+		}
+		// the deletion was applied on exactly the version the callback was shown last
+		if out.SawNil == st.L || (st.L && out.Saw != st.B) {
+			return false, st
+		}
+		x := ""
+		if st.L {
+			x = st.X // a body-less write through WriteCas keeps the xattrs of a live document
+		}
+		return true, St{P: true, X: x, C: out.Cas}
 	case OWriteUpd:
 		if out.Err != "" {
 			return false, st
